@@ -32,9 +32,14 @@ pub fn run(rep: &mut Rep) {
     // (requested interval, CONNACK override, elapsed): the interval in force is the server's when it sends one
     let overrides: Vec<(u32, u32, u64)> = vec![(3600, 0, 1), (NEVER, 0, 1), (100, 1000, 500), (1000, 10, 100), (0, 500, 10), (100, NEVER, 100_000), (50, 50, 10)];
     rep.note(&format!("crash points: the connection is cut (EOF) after every path of <= {depth} actions over {{publish QoS 1/2, PUBACK, PUBREC ok/failing, PUBCOMP}}, then hook H1 backdates the disconnection and the context reconnects; x {} (expiry interval, elapsed) pairs incl. 0, finite before/after expiry (>= 6 s from the boundary), never, and 7 cases where the CONNACK of the resuming connection overrides the requested interval (to 0, shorter, longer, never); the second wire before any new request is compared with the model, then acknowledgements are delivered on the new connection", configs.len()));
-    let mut all: Vec<(u32, Option<u32>, u64)> = configs.iter().map(|&(i, a)| (i, None, a)).collect();
-    all.extend(overrides.iter().map(|&(i, o, a)| (i, Some(o), a)));
-    for (ci, &(interval, over, ago)) in all.iter().enumerate() {
+    let mut all: Vec<(u32, Option<u32>, u64, Option<u16>, Option<u32>)> = configs.iter().map(|&(i, a)| (i, None, a, None, None)).collect();
+    all.extend(overrides.iter().map(|&(i, o, a)| (i, Some(o), a, None, None)));
+    // the CONNACK of the resuming connection announces its own Receive Maximum (below, at and above the number of
+    // unfinished handshakes) and Maximum Packet Size: every unfinished handshake is re-sent all the same
+    let limits: Vec<(u32, u64, Option<u16>, Option<u32>)> = vec![(NEVER, 10, Some(1), None), (3600, 10, Some(2), None), (3600, 100, Some(3), Some(1000)), (NEVER, 0, Some(65535), Some(u32::MAX)), (0, 10, Some(1), None)];
+    rep.note(&format!("{} further configurations in which the CONNACK of the resuming connection announces Receive Maximum 1 / 2 / 3 / 65535 (up to 4 handshakes unfinished) and a Maximum Packet Size", limits.len()));
+    all.extend(limits.iter().map(|&(i, a, r, m)| (i, None, a, r, m)));
+    for (ci, &(interval, over, ago, rmax, mps)) in all.iter().enumerate() {
         let name = format!("exh-c{ci}");
         let seed = rep.seed;
         let d = if ci == 3 || ci == 5 || ci == 0 { depth } else { depth - 1 };
@@ -50,7 +55,13 @@ pub fn run(rep: &mut Rep) {
             w.settle_check();
             let exp = expired(over.unwrap_or(interval), ago);
             let (pubs, rels) = w.unfinished();
-            let resumed = w.resume_with(ago, Some(interval), over, exp);
+            let resumed = w.resume_full(ResumeOpts { secs_ago: ago, sei: Some(interval), connack_sei: over, receive_max: rmax, max_packet: mps, expect_expired: exp });
+            if rmax.is_some() {
+                rep.add("resumptions_with_connack_receive_maximum", 1);
+                if !exp && (pubs.len() + rels.len()) as u32 > rmax.unwrap() as u32 {
+                    rep.add("resumptions_with_more_unfinished_handshakes_than_receive_maximum", 1);
+                }
+            }
             if over.is_some() {
                 rep.add("resumptions_with_connack_expiry_override", 1);
             }
@@ -76,7 +87,7 @@ pub fn run(rep: &mut Rep) {
                 w.eof();
                 w.settle_check();
                 let (p2, r2) = w.unfinished();
-                let again = w.resume_with(if interval == NEVER { 5 } else { 1 }, Some(interval), over, false);
+                let again = w.resume_full(ResumeOpts { secs_ago: if interval == NEVER { 5 } else { 1 }, sei: Some(interval), connack_sei: over, receive_max: rmax, max_packet: mps, expect_expired: false });
                 rep.add("second_resumptions", 1);
                 rep.add("publishes_expected_resent", p2.len() as i64);
                 rep.add("pubrels_expected_resent", r2.len() as i64);
